@@ -300,6 +300,12 @@ def e2e_programs():
                 {"target.py": "LAM_REMOVED = 1\n\ndef top(a):\n    lam_hidden(a)\n    return a.top_own\n"}, ["-x", ".*hidden"], ["top", "lam_hidden"], "KF_C11_1"))
     out.append(("exclude static method/target", {"target.py": "class K:\n    def __init__(self, u):\n        self.h = u.i\n\n    @staticmethod\n    def sm_hidden(v):\n        return v.static_attr\n\ndef top(a):\n    K.sm_hidden(a)\n    return a.top_own\n"},
                 {"target.py": "class K:\n    def __init__(self, u):\n        self.h = u.i\n\ndef top(a):\n    K.sm_hidden(a)\n    return a.top_own\n"}, ["-x", ".*hidden"], ["top", "K.sm_hidden"], "KF_C11_1"))
+    # an excluded static method behind a followed import: its body must not reach the caller either
+    out.append(("exclude static method/import",
+                {"target.py": "from lib import Store\n\ndef top(a):\n    Store.load_hidden(a)\n    return a.top_own\n",
+                 "lib.py": "class Store:\n    def __init__(self, u):\n        self.h = u.i\n\n    @staticmethod\n    def load_hidden(v):\n        return v.static_attr\n"},
+                {"target.py": "from lib import Store\n\ndef top(a):\n    Store.load_hidden(a)\n    return a.top_own\n",
+                 "lib.py": "class Store:\n    def __init__(self, u):\n        self.h = u.i\n"}, ["-x", ".*hidden"], ["top"], None))
     return out
 
 
@@ -382,18 +388,23 @@ def main(tier: str) -> int:
         if docs[0] is None or docs[1] is None:
             prob = f"a run failed (exit {ra['exit']} / {rb['exit']}): {(ra['stderr'] or rb['stderr'])[-300:]}"
         else:
+            key_only = None      # the finding class KF_C11_1 covers ONE thing: the excluded lambda / static method stays a results key
             for fn in fns:
                 ga, gb = docs[0].get(fn), docs[1].get(fn)
                 strip = lambda g: None if g is None else {k: g[k] for k in ("gets", "sets", "dels", "calls")}
                 if strip(ga) != strip(gb):
+                    if kf and fn in ("lam_hidden", "K.sm_hidden") and gb is None:
+                        key_only = f"{fn} is excluded but is a key of the results"
+                        continue
                     prob = f"{fn}: with the annotation / exclusion {strip(ga)} != reference program {strip(gb)}"
                     break
-            hidden = [k for k in docs[0] if ("ignore" in label or "exclude" in label) and k in ("mid", "Box", "lam_hidden", "K.sm_hidden")]
+            hidden = [k for k in docs[0] if ("ignore" in label or "exclude" in label) and k in ("mid", "Box", "Helper", "Helper.peek")]
             if not prob and hidden:
                 prob = f"{hidden[0]} is ignored / excluded but is a key of the results"
+            if not prob and key_only:
+                e_known.append({"scenario": label, "why": key_only, "files": fa, "reference_files": fb, "options": opts})
         if prob:
-            info = {"scenario": label, "why": prob, "files": fa, "reference_files": fb, "options": opts}
-            (e_known if kf else e_new).append(info)
+            e_new.append({"scenario": label, "why": prob, "files": fa, "reference_files": fb, "options": opts})
 
     for m in a_corr[:3]:
         what = ("a malformed rattr_results declaration was accepted" if m["outcome"][0] == "accept" else
